@@ -13,7 +13,7 @@
      keyword   := domain | search | nameserver | sortlist | options | lookup | hostresorder
      nameserver argument: tokens separated by ' ' or ','; a token that can be a server starts
                 with a hex digit, ':', '.', or '['
-     sortlist argument: tokens separated by ' ' or ';'; each token starts with one of
+     sortlist argument: at least one token between ' ' and ';'; each token starts with one of
                 "ABCDEFabcdef0123456789.:"
      options argument: tokens separated by blanks; token := name | name ':' number
                 names: ndots timeout retrans attempts retry rotate use-vc usevc;
@@ -95,7 +95,7 @@ Definition junk_class_resolv (l : bytes) : option jclass :=
           else if bytes_eqb k k_sortlist then
             match tokens s_sep_sortlist a with
             | t :: _ => if cannot_start_pattern t then Some JSortlistToken else None
-            | [] => None
+            | [] => Some JSortlistToken              (* nothing but separators *)
             end
           else if bytes_eqb k k_options then
             let ts := buf_split s_sep_ws true false false 0 a in
